@@ -157,6 +157,11 @@ func c18mutations() []c18stream {
 	add("CONNECT/will-topic-invalid-utf8", tmpl{"", 0x10, append(append(append(append(lp("MQTT"), 4, 0x02|0x04, 0, 30), lp("hostile")...), lp("w\xc3\x28")...), lp("m")...), nil, -1}.bytes())
 	add("SUBSCRIBE/filter-invalid-utf8", tmpl{"", 0x82, append(append([]byte{0, 7}, lp("h/\xff")...), 0), nil, -1}.bytes())
 	add("PUBLISH/topic-invalid-utf8", tmpl{"", 0x31, append(lp("h/\xfe\xff"), 'x'), nil, -1}.bytes())
+	// topic names that are illegal in a PUBLISH but match the sender's own subscription (h/#), so they reach the log
+	add("PUBLISH/topic-with-multi-level-wildcard", tmpl{"", 0x30, append(lp("h/#"), 'x'), nil, -1}.bytes())
+	add("PUBLISH/topic-with-single-level-wildcard", tmpl{"", 0x32, append(append(lp("h/+"), 0, 9), 'x'), nil, -1}.bytes())
+	add("PUBLISH/topic-with-nul", tmpl{"", 0x30, append(lp("h/\x00"), 'x'), nil, -1}.bytes())
+	add("PUBLISH/retained-topic-with-wildcard", tmpl{"", 0x31, append(lp("h/+/#"), 'x'), nil, -1}.bytes())
 	add("CONNECT/empty-client-id", tmpl{"", 0x10, append(append(lp("MQTT"), 4, 2, 0, 30), lp("")...), nil, -1}.bytes())
 	return out
 }
@@ -245,6 +250,10 @@ func TestC18HostileInput(t *testing.T) {
 				h.SendRaw(s.Bytes)
 				w.Step()
 				Observe(w, rep)
+				// whatever the stream registered (a subscription with an odd QoS, an odd filter) is exercised by a
+				// message on the hostile client's own topic space before it goes away
+				wpub.Publish("h/t", "probe", 1, false, 76)
+				wpub.Publish("h/a", "probe", 0, false, 0)
 				w.Idle(time.Second)
 				hostileClosed := h.BrokerClosed()
 				h.Drop()
@@ -299,7 +308,6 @@ func clip(b []byte, n int) []byte {
 	}
 	return b
 }
-
 
 // TestC18SplitPackets: a slow (not hostile) sender whose packet arrives in two pieces while many other
 // clients connect in between: every connection has its own framing state, the packet must arrive intact.
